@@ -32,12 +32,24 @@ SENTINEL = ("203.0.113.250", 9)
 SENTINEL_RAW = S.pack_header([1, 0, 1, 0, 4, 0, 0, 0]) + b"\0\0\0\0"
 
 
+_OTHER_IPS = {}      # host spellings that are not dotted-quad IPv4 (IPv6, v4-mapped): ids above 2^32, by string identity
+_OTHER_IDS = {}
+
+
 def ipid(ip):
-    a, b, c, d = (int(x) for x in ip.split("."))
-    return (a << 24) | (b << 16) | (c << 8) | d
+    parts = ip.split(".")
+    if len(parts) == 4 and all(x.isdigit() for x in parts):
+        a, b, c, d = (int(x) for x in parts)
+        return (a << 24) | (b << 16) | (c << 8) | d
+    if ip not in _OTHER_IPS:
+        _OTHER_IPS[ip] = (1 << 32) + len(_OTHER_IPS)
+        _OTHER_IDS[_OTHER_IPS[ip]] = ip
+    return _OTHER_IPS[ip]
 
 
 def idip(n):
+    if n >= (1 << 32):
+        return _OTHER_IDS[n]
     return "%d.%d.%d.%d" % ((n >> 24) & 255, (n >> 16) & 255, (n >> 8) & 255, n & 255)
 
 
